@@ -275,6 +275,10 @@ def first_repo_frame(diag):
 
 def crash_key(diag, status):
     """(key, summary) for an observation that did not finish normally."""
+    a = re.search(rb"([\w/.]+):(\d+): (\w+): Assertion `([^']*)' failed", diag)
+    if a:
+        return "%s:assert" % a.group(3).decode(), "assertion `%s' failed in %s (%s:%s): the process aborts" % (
+            a.group(4).decode("latin-1"), a.group(3).decode(), a.group(1).decode(), a.group(2).decode())
     m = re.search(rb"ERROR: AddressSanitizer: (\S+)", diag)
     fr = first_repo_frame(diag[m.start():] if m else diag)
     fn = fr[0] if fr else "unknown"
@@ -296,7 +300,7 @@ def crash_key(diag, status):
         src = u.group(1).decode()
         if fn == "unknown":
             fn = os.path.basename(src).replace(".c", "") + "_%s" % u.group(2).decode()
-        if "tcmatch.c" in src and kind == "null-deref" and b"struct enumerator" in u.group(3):
+        if fn == "symtab_add_matchbind_from_matchbind_list" and kind == "null-deref" and b"struct enumerator" in u.group(3):
             return "tcmatch:null-enumerator", "NULL enumerator dereferenced in %s (%s:%s)" % (fn, src, u.group(2).decode())
         return "%s:%s" % (fn, kind), "UBSan: %s in %s (%s:%s)" % (msg, fn, src, u.group(2).decode())
     a = re.search(rb"([\w/.]+):(\d+): (\w+): Assertion `([^']*)' failed", diag)
@@ -552,6 +556,17 @@ FAULTS = [
     ("listcomp-bad", rb"\b(\d+)\b", lambda r, m: b"[ q | q in 1 ] : int"),
     ("slice-non-array", rb"(x\d+)\[0\]", lambda r, m: m.group(1) + b"[0 .. \"a\"]"),
     ("nested-func-undefined", rb"q \+ ", lambda r, m: b"zz + "),
+    # one self-contained ill-typed expression in place of an int literal: each typecheck error path alone
+    ("ill-typed-operand", rb"\b(\d+)\b", lambda r, m: r.choice([
+        b'(-"s")', b"(-nil)", b"(-true)", b"(!3)", b'(!"s")', b'("a" * 2)', b"(nil + 1)", b"(1 && 2)", b'("a" < 1)', b"(1 ? 2 : 3)",
+        b"([ 1, 2 ] : int + 1)", b"(1)(2)", b"(1[0])", b'("s"[nil])', b'(1 .. "a")', b"(twice - 1)", b"(C::R * 2)", b"(P(1, 2) + 1)",
+        b"(1.5 % 2)", b"(1 <<< 1.5)", b'(1 &&& "s")', b"(~~~1.5)", b"(true + true)", b"('a' * 'b')", b'("a" - "b")', b"(nil == 1)",
+        b"(twice == 1)", b"(C::R < C::G)", b"(1 == 1.5)", b"(1L + 1.5)", b'(1 ? "a" : 2)', b"(nil ? 1 : 2)", b"(twice(1.5))",
+        b'(twice("s"))', b"(twice(nil))", b"(length(1))", b'(ord("ab"))', b"(chr(1.5))", b'(str(nil))', b"(assert(1))",
+        b"({ 1; \"s\" })", b"(if (1) { 1 } else { 2 })", b'(if (true) { 1 } else { "s" })', b"(while (1) { 1 })", b"(for (i in 5) { i })",
+        b"([ 1, \"s\" ] : int)[0]", b"([ [ 1 ], [ 1, 2 ] ] : int)[0, 0]", b"({[ 1.5 ]} : int)[0]", b"(P(1, 2).x.y)", b"(C::R.x)",
+        b"(let func (a : int) -> int { a })", b"(let func () -> int { \"s\" }())", b"(match (1) { 1 -> 2; })",
+        b"(match (C::R) { C::R -> 1; C::G -> \"s\"; C::B -> 3; })", b"(match (C::R) { else -> nil; })", b"(1 : string)", b"(nil : int)"])),
     ("iflet-bad", rb"\b(\d+)\b", lambda r, m: b"if let (C::Q(a) = C::R) { 1 } else { 2 }"),
     ("for-non-iterable", rb"while \((x\d+) < 3\)", lambda r, m: b"for (i in 1)"),
     ("catch-unknown", rb"\n\}\n$", lambda r, m: b"\n}\ncatch (nope) { 0 }\n"),
